@@ -68,8 +68,8 @@ fn engine_shard(id: &str, tier: &str, seed: u64, replay: Option<&serde_json::Val
             let e2 = checks_c03::shard_run("C08", tier, seed, replay, shard);
             out.merge(e2);
         }
-        if id == "C18" && out.found.is_empty() && replay.map(|r| r["replay"]["origin"] == "e2").unwrap_or(true) {
-            let e2 = checks_c03::shard_run("C18", tier, seed, replay, shard);
+        if (id == "C18" || id == "C10") && out.found.is_empty() && replay.map(|r| r["replay"]["origin"] == "e2").unwrap_or(true) {
+            let e2 = checks_c03::shard_run(id, tier, seed, replay, shard);
             out.merge(e2);
         }
         if id == "C01" && replay.is_none() && out.found.is_empty() && shard.k == 5 % shard.n {
